@@ -154,10 +154,79 @@ proof fn lemma_shl(k: u64)
 
 // only the fields these methods touch (the real struct is generic over R: Read + Seek)
 struct LogIterator { input: Input, buffer: Vec<u8>, buffer_idx: usize }
+//@ extract sst/src/lib.rs | struct KeyValueRef
+//@ end
+//@ extract sst/src/log.rs | const HEADER_WHOLE
+//@ end
+//@ extract sst/src/log.rs | const HEADER_FIRST
+//@ end
+//@ extract sst/src/log.rs | const HEADER_SECOND
+//@ end
+//@ extract sst/src/lib.rs | fn corruption_crc_checksum_failed
+//@ external-body
+//@ end
+//@ extract sst/src/lib.rs | fn corruption_truncation_no_second_header
+//@ external-body
+//@ end
+//@ extract sst/src/lib.rs | fn corruption_invalid_discriminant
+//@ external-body
+//@ end
+
+// `self.buffer.resize(n, 0); let buffer = &mut self.buffer[start..]; io_result(self.input.read_exact(buffer))?;`
+// is read through this helper (Verus has no mutable sub-slice borrow of a Vec): the buffer has n bytes afterwards,
+// with ARBITRARY contents, and the read may fail
+#[verifier::external_body]
+fn read_tail(input: &mut Input, buffer: &mut Vec<u8>, start: usize, n: usize) -> (r: Result<(), IoError>)
+    requires start == old(buffer)@.len(), start <= n,
+    ensures final(buffer)@.len() == n,
+{ unimplemented!() }
+#[verifier::external_body]
+fn tail_of(buffer: &Vec<u8>, start: usize) -> (r: &[u8])
+    requires start <= buffer@.len(),
+    ensures r@ == buffer@.subrange(start as int, buffer@.len() as int),
+{ unimplemented!() }
+// CRC32C of damaged bytes: any value
+#[verifier::external_body]
+fn crc32c_of(buffer: &[u8]) -> (r: u32) { unimplemented!() }
 
 impl LogIterator {
+    // entry decoding inside a loaded batch: the derive-generated KeyValueEntry decoder (C15 harnesses), not interpreted here
+//@ extract sst/src/log.rs | impl LogIterator<R> :: fn next_from_buffer
+//@ ret r
+//@ post <<
+        final(self).buffer@ == old(self).buffer@,
+//@ >>
+//@ external-body
+//@ end
+
+    // a frame never makes the buffer grow by more than TABLE_FULL_SIZE: bounded allocation whatever the file holds
+//@ extract sst/src/log.rs | impl LogIterator<R> :: fn next_frame
+//@ ret r
+//@ rewrite-re X7 `self\.buffer\.resize\(buffer_new_sz, 0\);\s*let buffer = &mut self\.buffer\[buffer_start_sz\.\.\];\s*io_result\(self\.input\.read_exact\(buffer\)\)\?;` => `io_result(read_tail(&mut self.input, &mut self.buffer, buffer_start_sz, buffer_new_sz))?; let buffer = tail_of(&self.buffer, buffer_start_sz);`
+//@ rewrite-re X7 `crc32c::crc32c\(` => `crc32c_of(`
+//@ rewrite-re X7 `self\.input\.stream_position\(\)\.unwrap_or\(0\)` => `self.input.position_or_zero()`
+//@ pre <<
+        old(self).buffer@.len() <= 0x4000_0000,
+//@ >>
+//@ post <<
+        final(self).buffer@.len() <= old(self).buffer@.len() + (1073741824 - 67108864),
+//@ >>
+//@ end
+
+    // a call of next() that has to load a batch: never more than two frames, so never more than 2 * TABLE_FULL_SIZE bytes
+//@ extract sst/src/log.rs | impl LogIterator<R> :: fn next
+//@ ret r
+//@ rewrite-re X7 `self\.input\.stream_position\(\)\.unwrap_or\(0\)` => `self.input.position_or_zero()`
+//@ post <<
+        final(self).buffer@.len() <= old(self).buffer@.len() + 2 * (1073741824 - 67108864) || final(self).buffer@.len() <= 2 * (1073741824 - 67108864),
+//@ >>
+//@ end
+
 //@ extract sst/src/log.rs | impl LogIterator<R> :: fn true_up
 //@ ret r
+//@ post <<
+        final(self).buffer@ == old(self).buffer@,
+//@ >>
 //@ end
 
 //@ extract sst/src/log.rs | impl LogIterator<R> :: fn next_header
@@ -168,10 +237,14 @@ impl LogIterator {
 //@ rewrite-re X7 `<Header as Unpackable>::unpack\(header\)\s*\.map_err\(unpack_log_header\)\?\s*\.0` => `unpack_header(header)?`
 //@ post <<
         r is Ok && r->Ok_0 is Some ==> r->Ok_0->Some_0.size <= 1073741824 - 67108864,
+        final(self).buffer@ == old(self).buffer@,
+//@ >>
+//@ loop 0 <<
+            invariant self.buffer@ == old(self).buffer@,
 //@ >>
 //@ end
 }
 
-//@ min-verified 9
+//@ min-verified 12
 } // verus!
 fn main() {}
